@@ -14,6 +14,7 @@ from symx.engine import harness
 
 from armi import context
 from armi.nucDirectory import elements
+from armi.nucDirectory import nucDir
 from armi.nucDirectory import nuclideBases as nb
 
 STUBS = ["none: armi.nucDirectory tables as built at import; nuclideBases.imposeBurnChain is run once per process on "
@@ -83,3 +84,116 @@ def every_nuclide_is_a_member_of_the_element_with_its_atomic_number(ctx):
                   + ("" if s == 0.0 or abs(s - 1.0) <= ABUNDANCE_TOL else ": Z=%d sum %r" % (z, s)),
                   s == 0.0 or abs(s - 1.0) <= ABUNDANCE_TOL)
         ctx.check("abundances are fractions", all(0.0 <= m.abundance <= 1.0 for m in e.nuclides))
+        # the same statement through the natural-isotopics API (what materials and elemental expansion use): the
+        # natural isotopics of an element are exactly its nuclides (isotopes AND isomers) with abundance > 0
+        abundant = [m for m in e.nuclides if isinstance(m, nb.NuclideBase) and m.abundance > 0.0]
+        if ctx.canary and z == 97:
+            abundant = abundant + [mine[0]]
+        natural = e.getNaturalIsotopics()
+        lost = [m.name for m in abundant if not any(m is x for x in natural)]
+        added = [x.name for x in natural if not any(m is x for m in abundant)]
+        ctx.check("getNaturalIsotopics() is exactly the nuclides of the element with abundance > 0, each once"
+                  + ("" if not (lost or added) and len(natural) == len(abundant)
+                     else ": Z=%d %s missing %s, not abundant %s, %d listed" % (z, e.symbol, lost, added, len(natural))),
+                  not lost and not added and len(natural) == len(abundant))
+        sn = sum(x.abundance for x in natural)
+        okn = (not natural and s == 0.0) or abs(sn - 1.0) <= ABUNDANCE_TOL
+        ctx.check("the abundances of getNaturalIsotopics() sum to one, or the element has none"
+                  + ("" if okn else ": Z=%d %s sum %r" % (z, e.symbol, sn)), okn)
+        viaDir = nucDir.getNaturalIsotopics(z=z)
+        ctx.check("nucDir.getNaturalIsotopics(z) lists the same (mass number, abundance) pairs",
+                  sorted(viaDir) == sorted((x.a, x.abundance) for x in abundant))
+        differ = [n.name for n in mine if isinstance(n, (nb.NuclideBase, nb.NaturalNuclideBase))
+                  and [id(x) for x in n.getNaturalIsotopics()] != [id(x) for x in natural]]
+        ctx.check("every nuclide of the element reports the natural isotopics of its element"
+                  + ("" if not differ else ": Z=%d %s" % (z, differ[:6])), not differ)
+        if abundant and not (ctx.canary and z == 97):
+            w = sum(x.weight * x.abundance for x in abundant) / sum(x.abundance for x in abundant)
+            ctx.check("the standard weight of the element is the abundance-weighted mean of its natural isotopics",
+                      e.standardWeight is not None and abs(e.standardWeight - w) <= 1e-9 * w)
+        ctx.check("the element is naturally occurring exactly when it has natural isotopics",
+                  bool(e.isNaturallyOccurring()) == bool(abundant))
+
+
+# ---------------------------------------------------------------------------------------------------------
+# "Every nuclide of the directory can be retrieved through each identifier it has ..., each lookup returns that same
+# nuclide, no two nuclides share an identifier"
+
+# (identifier kind, index of the module, how a nuclide reports that identifier; None / '' = it has none of that kind)
+IDENTIFIERS = [
+    ("name", "byName", lambda n: n.name),
+    ("label", "byLabel", lambda n: n.label),
+    ("database name", "byDBName", lambda n: n.getDatabaseName()),
+    ("MC2-2 id", "byMcc2Id", lambda n: n.getMcc2Id()),
+    ("MC2-3 id", "byMcc3Id", lambda n: n.getMcc3Id()),
+    ("MC2-3 id (ENDF/B-VII.0)", "byMcc3IdEndfbVII0", lambda n: n.getMcc3IdEndfbVII0()),
+    ("MC2-3 id (ENDF/B-VII.1)", "byMcc3IdEndfbVII1", lambda n: n.getMcc3IdEndfbVII1()),
+    ("MCNP id", "byMcnpId", lambda n: n.getMcnpId() if isinstance(n, nb.IMcnpNuclide) else None),
+    ("AAAZZZS id", "byAAAZZZSId", lambda n: n.getAAAZZZSId() if isinstance(n, nb.NuclideBase) else None),
+]
+# every real nuclide / element has these; the MC2 ids exist only for the nuclides of the MC2 libraries
+MUST_HAVE = {"name": object, "label": object, "database name": object, "MCNP id": nb.IMcnpNuclide,
+             "AAAZZZS id": nb.NuclideBase}
+
+# Candidate genuine defect on the unchanged tree (reported by an independent engineer; plain-Python reproduction:
+#   from armi.nucDirectory import nuclideBases as nb
+#   nb.byName['DUMP1'].getMcc3Id() == nb.byName['DUMP2'].getMcc3Id() == 'DUMMY'; nb.byMcc3Id['DUMMY'].name == 'DUMP2'
+# ): the two dummy nuclides DUMP1 and DUMP2 share the MC2-3 identifier 'DUMMY' in mcc-nuclides.yaml (both libraries),
+# so DUMP1 cannot be retrieved through byMcc3Id / byMcc3IdEndfbVII0 / byMcc3IdEndfbVII1 (DUMP2, read later, wins).
+# With the flag set, the obligation for exactly that identifier states the defect instead (the lookup gives the
+# other dummy nuclide); every other nuclide and identifier is unaffected.
+KNOWN_DEFECT_dummy_nuclides_share_mcc3_id = True
+SHARED_DUMMY_ID = ("DUMMY", ("DUMP1", "DUMP2"))
+# Documented, not a defect (I_ARMI_ND_ISOTOPES6, updateNuclideBasesForSpecialCases): "AM242" / "nAm242" are second
+# keys for Am-242m, whose own name is AM242M (the ground state is AM242G).  No two nuclides share an identifier
+# through it; the key -> nuclide direction below allows exactly these aliases.
+DOCUMENTED_ALIASES = {("byName", "AM242"): "AM242M", ("byDBName", "nAm242"): "AM242M"}
+
+
+@harness("C19", bounds="every nuclide of nuclideBases.instances (about 4700; the row examined is the symbolic input) x "
+                       "every identifier kind: name, label, database name, MC2-2 id, MC2-3 id (generic, ENDF/B-VII.0, "
+                       "ENDF/B-VII.1), MCNP id, AAAZZZS id; and every key of every index", stubs=STUBS)
+def every_identifier_of_a_nuclide_looks_up_that_same_nuclide(ctx):
+    k = int(ctx.int("row", 0, STRIDE - 1))
+    rows = list(nb.instances)
+    ctx.check("the table is not empty", len(rows) > 0)
+    for idx in range(k, len(rows), STRIDE):     # the STRIDE values of `row` together cover every row
+        n = rows[idx]
+        for kind, indexName, getter in IDENTIFIERS:
+            index = getattr(nb, indexName)
+            ident = getter(n)
+            if ctx.canary and idx == len(rows) - 40 and kind == "label":
+                ident = rows[idx - 1].label
+            if ident is None or ident == "":
+                must = MUST_HAVE.get(kind)
+                ctx.check("every nuclide has a %s" % kind + ("" if must is None or not isinstance(n, must)
+                                                                else ": %s has none" % n.name),
+                          must is None or not isinstance(n, must))
+                continue
+            found = index.get(ident)
+            if (KNOWN_DEFECT_dummy_nuclides_share_mcc3_id and kind.startswith("MC2-3") and ident == SHARED_DUMMY_ID[0]
+                    and n.name in SHARED_DUMMY_ID[1]):
+                ctx.note("KNOWN_DEFECT_dummy_nuclides_share_mcc3_id: DUMP1 and DUMP2 share the %s 'DUMMY'" % kind)
+                ctx.check("known defect: the shared MC2-3 id 'DUMMY' finds one of the two dummy nuclides (must be: "
+                          "each its own)", found is not None and found.name in SHARED_DUMMY_ID[1])
+                continue
+            ok = found is n
+            ctx.check("%s[%s of the nuclide] is that same nuclide" % (indexName, kind)
+                      + ("" if ok else ": %s reports %r, which finds %s"
+                         % (n.name, ident, "nothing" if found is None else found.name)), ok)
+        ctx.check("the generic MC2-3 id is the ENDF/B-VII.1 one (byMcc3Id is documented as the VII.1 index)"
+                  + ("" if n.getMcc3Id() == n.getMcc3IdEndfbVII1() else ": %s" % n.name),
+                  n.getMcc3Id() == n.getMcc3IdEndfbVII1())
+    # the other direction, per index: every key is the identifier of the nuclide it finds (so that a key cannot find a
+    # nuclide that does not carry it), apart from the documented Am-242 aliases; one index per path
+    if k < len(IDENTIFIERS):
+        kind, indexName, getter = IDENTIFIERS[k]
+        index = getattr(nb, indexName)
+        stray = [(key, v.name) for key, v in index.items()
+                 if getter(v) != key and DOCUMENTED_ALIASES.get((indexName, key)) != v.name]
+        ctx.check("every key of %s is the %s of the nuclide it finds" % (indexName, kind)
+                  + ("" if not stray else ": %s" % stray[:5]), not stray)
+        ctx.check("every nuclide found through %s is a nuclide of the directory" % indexName,
+                  all(nb.byName.get(v.name) is v for v in index.values()))
+    ctx.check("byMcc3Id is the ENDF/B-VII.1 index", nb.byMcc3Id is nb.byMcc3IdEndfbVII1
+              or dict(nb.byMcc3Id) == dict(nb.byMcc3IdEndfbVII1))
